@@ -34,7 +34,8 @@ ARRAYS_THOROUGH = ARRAYS_QUICK + [("a",), ("n", "t"), ("b", "t", "a")]
 def _worker(prog, rep, job):
     letters, target = job
     fails = {}
-    for inp, ok, msg, qual in DC.case_faults(prog, letters, target):
+    results = DC.case_reader_faults(prog, letters) if target == "csv-reader" else DC.case_faults(prog, letters, target)
+    for inp, ok, msg, qual in results:
         rule = "C12.fault-matrix" if "partially filled" not in msg else "C12.no-partial-fill"
         rep.oblige(rule, ok, where=qual, what=str(inp), distinct=(rule, str(inp)),
                    sample={"rule": rule, "case": inp, "verdict": "ok" if ok else "VIOLATED"} if rep.obligations % 23 == 0 else None)
@@ -71,7 +72,7 @@ def run(prog, rep):
     rep.rule("C12.no-partial-fill", "a refused set_values_from_df leaves the target array untouched")
     rep.rule("C12.flags-forwarded", "readers and from_csv / from_excel hand the flags to the importer unswapped")
     arrays = ARRAYS_QUICK if rep.tier == "quick" else ARRAYS_THOROUGH
-    jobs = [(l, t) for l in arrays for t in ("from_df", "set_values_from_df")]
+    jobs = [(l, t) for l in arrays for t in ("from_df", "set_values_from_df")] + [(l, "csv-reader") for l in arrays[:3]]
     fails = {}
     for part in pmap(_worker, jobs, prog, rep):
         for k, (count, inp, msg) in part.items():
